@@ -391,3 +391,56 @@ func BadSharedWrite(p *pair, q *pair) int {
 }
 
 func clobber(q *pair) { q.a = 9 }
+
+// ---- immutable: an object that existed at the head of the iteration must not be written
+
+type published struct{ v int }
+
+type Holder struct{ cur *published }
+
+func (h *Holder) GoodRepublish(xs []int) {
+	for _, x := range xs {
+		p := &published{}
+		p.v = x
+		h.cur = p
+	}
+}
+
+func (h *Holder) BadOverwrite(xs []int) {
+	for _, x := range xs {
+		if h.cur != nil {
+			h.cur.v = x
+			continue
+		}
+		p := &published{}
+		p.v = x
+		h.cur = p
+	}
+}
+
+// ---- a callee that stores a freshly allocated object into a location it may modify must not make the
+// caller's continuation vacuous
+
+type boxHolder struct{ p *pair }
+
+func fillBox(h *boxHolder) { h.p = &pair{a: 1} }
+
+func BadAfterFreshStore(h *BoxHolder) int {
+	fillBox((*boxHolder)(h))
+	return 1
+}
+
+type BoxHolder boxHolder
+
+func GoodAfterFreshStore(h *BoxHolder, q *pair) int {
+	q.a = 7
+	fillBox((*boxHolder)(h))
+	h.p.a = 9
+	return q.a
+}
+
+// named types sharing one underlying struct share memory
+func BadNamedAlias(h *BoxHolder) *pair {
+	(*boxHolder)(h).p = nil
+	return h.p
+}
